@@ -40,8 +40,12 @@ type Conn struct {
 	// WriteFault, when set, is consulted on every write; it returns (n, err) to inject
 	// a fault or (-1, nil) to let the write through.
 	WriteFault func(c *Conn, p []byte) (int, error)
-	Log        *[]Record
-	Writes     int
+	// EOFWithData makes Read return the last bytes together with io.EOF in one call, once the peer has
+	// closed (what crypto/tls does when close_notify arrives in the segment of the last record; io.Reader
+	// allows it for any reader).
+	EOFWithData bool
+	Log         *[]Record
+	Writes      int
 }
 
 type addr string
@@ -78,6 +82,9 @@ func (c *Conn) Read(p []byte) (int, error) {
 		n := copy(p, c.in.buf)
 		c.in.buf = c.in.buf[n:]
 		vrt.Tracef("read %s %d bytes", c.Name, n)
+		if c.EOFWithData && len(c.in.buf) == 0 && c.in.wclosed && !c.in.reset {
+			return n, io.EOF
+		}
 		return n, nil
 	}
 	if c.in.reset {
